@@ -103,8 +103,14 @@ def run(rep: Report, ctx: Any) -> str:
                       "Any); values of untrusted Any sources are not returned as containers without an isinstance check")
     rep.rule("R06.3", "every call through a dynamically imported property template is guarded by `{% if alias.macro %}` or every "
                       "template the alias can denote defines the macro")
-    rep.rule("R06.4", "every while loop and every recursive cycle matches a ranking pattern: progress worklist, visited set, "
-                      "fixpoint on a growing set, structural recursion")
+    rep.rule("R06.4", "every while loop and every recursive cycle of the call graph has one of five ranking arguments, decided on the "
+                      "labelled statement CFG of one round (loop body or one activation): (1) every path to a repetition inserts "
+                      "into a never-shrinking collection an element just tested absent; (2) the round repeats only when a "
+                      "monotonically growing set differs from its previous-round snapshot; (3) progress rounds - the next work "
+                      "list is the re-queue list of one pass, repeated only if the pass's indicator is set, indicator and list "
+                      "reset between passes, no iteration both re-queues and sets the indicator; (4) every repetition removes a "
+                      "key just tested present from a map nothing adds to; (5) structural recursion - the non-descending call "
+                      "edges are acyclic")
     rep.rule("R06.5", "handle_errors raises typer.Exit(1) iff an error-level diagnostic exists or fail_on_warning; a rejected "
                       "document returns before any filesystem effect")
     rep.rule("R06.6", "diagnostics survive to the caller: a function that records error values on objects it keeps in a local table "
